@@ -106,6 +106,24 @@ def main():
     kw = dict(window_strides=(1, 1), padding="SAME", dimension_numbers=("NHWC", "HWIO", "NHWC"))
     case("conv NHWC/HWIO", (lambda: it.getattr(lax, "conv_general_dilated")(lhs_m, rhs_m, **kw)), (lambda: jax.lax.conv_general_dilated(jnp.asarray(lhs_n, jnp.float32), jnp.asarray(rhs_n, jnp.float32), **kw)))
 
+    # more jax.lax functions
+    lg = lambda n: it.getattr(lax, n)
+    for name, am, an in [
+        ("pad", (b_m, 0, ((1, 2, 1), (0, -1, 2))), (jnp.asarray(b_n), 0, ((1, 2, 1), (0, -1, 2)))),
+        ("rev", (a_m, (0, 2)), (jnp.asarray(a_n), (0, 2))),
+        ("transpose", (a_m, (1, 2, 0)), (jnp.asarray(a_n), (1, 2, 0))),
+        ("slice_in_dim", (a_m, 1, None, 2, 2), (jnp.asarray(a_n), 1, None, 2, 2)),
+        ("slice", (a_m, (0, 1, 0), (2, 3, 4), (1, 1, 2)), (jnp.asarray(a_n), (0, 1, 0), (2, 3, 4), (1, 1, 2))),
+        ("dynamic_slice_in_dim", (a_m, 3, 2, 2), (jnp.asarray(a_n), 3, 2, 2)),
+        ("index_in_dim", (a_m, 1, 1, False), (jnp.asarray(a_n), 1, 1, False)),
+        ("concatenate", ([b_m, b_m], 1), ([jnp.asarray(b_n), jnp.asarray(b_n)], 1)),
+        ("expand_dims", (b_m, (0, 2)), (jnp.asarray(b_n), (0, 2))),
+    ]:
+        case("lax." + name, (lambda n=name, am=am: lg(n)(*am)), (lambda n=name, an=an: getattr(jax.lax, n)(*an)))
+    case("lax.fori_loop", (lambda: lg("fori_loop")(0, 4, lambda i, v: v * 2 + i, b_m)), (lambda: jax.lax.fori_loop(0, 4, lambda i, v: v * 2 + i, jnp.asarray(b_n))))
+    case("lax.scan", (lambda: lg("scan")(lambda c, x: (c + x, c * x), b_m[0], b_m)[1]), (lambda: jax.lax.scan(lambda c, x: (c + x, c * x), jnp.asarray(b_n)[0], jnp.asarray(b_n))[1]))
+    case("lax.scan carry", (lambda: lg("scan")(lambda c, x: (c + x, c * x), b_m[0], b_m)[0]), (lambda: jax.lax.scan(lambda c, x: (c + x, c * x), jnp.asarray(b_n)[0], jnp.asarray(b_n))[0]))
+
     bad = 0
     for name, fm, fr in cases:
         try:
